@@ -180,11 +180,16 @@ MUST = {
 
 
 def model(ctx, name, what, label, fixed=False, dump=None, timeout=900):
-    """E1: TLC on one of the generated MC programs (spec/future/gen.py: MC)"""
+    """E1: TLC on one of the generated MC programs, or on a group of them (spec/future/gen.py: MC, GROUPS)"""
     cfg = 'MC_%s.cfg' % name
     if fixed and os.path.exists(os.path.join(vlib.ROOT, SPEC, 'MC_%s_fixed.cfg' % name)):
         cfg = 'MC_%s_fixed.cfg' % name
-    must = set(MUST[name].split())
+    members = gen.GROUPS.get(name, [name])
+    must = set()
+    for m in members:
+        must |= set(MUST[m].split())
+    if name in gen.GROUPS:
+        label = label + ': ' + ' | '.join(gen.MC[m] for m in members)
     return ctx.check_model(SPEC, 'MCFuture.tla', cfg, what, label=label, dump=dump, workers=4, timeout=timeout,
                            vacuity_exempt=tuple(a for a in ALL_ACTIONS if a not in must))
 
